@@ -134,6 +134,14 @@ def objects():
     shells = [Shell(0, [0, 0, 1], ["c", "c", "c"], np.array([1.0, 0.3]), np.ones((2, 3)) * 0.4), Shell(1, [0], ["c"], np.array([0.8]), np.array([[1.0]]))]
     mo = MolecularOrbitals("restricted", 6, 6, occs=np.array([2.0, 1, 1, 0, 0, 0]), occs_aminusb=np.array([0.0, 1, -1, 0, 0, 0]), coeffs=np.eye(6), energies=np.arange(6.0), irreps=["a"] * 6)
     out.append(("generalized+aminusb", IOData(atnums=[8, 1], atcoords=np.array([[0.0, 0, 0], [0, 0, 1.8]]), obasis=MolecularBasis(shells, HORTON2_CONVENTIONS, "L2"), mo=mo, title="t", extra={"nested": {"list": [1, [2, 3]], "d": {"a": [4]}}})))
+    # the same object built in another order of assignments: charge and spin first, orbitals later (the private
+    # _nelec / _spinpol fields keep their values)
+    late = IOData(atnums=[8, 1], atcoords=np.array([[0.0, 0, 0], [0, 0, 1.8]]), title="t")
+    late.charge = 3.0
+    late.spinpol = 0
+    late.obasis = MolecularBasis(shells, HORTON2_CONVENTIONS, "L2")
+    late.mo = MolecularOrbitals("restricted", 6, 6, occs=np.array([2.0, 1, 1, 0, 0, 0]), occs_aminusb=np.array([0.0, 1, -1, 0, 0, 0]), coeffs=np.eye(6), energies=np.arange(6.0), irreps=["a"] * 6)
+    out.append(("generalized+aminusb, orbitals assigned after charge and spinpol", late))
     q = IOData(atnums=[1, 1], atcoords=np.array([[0.0, 0, 0], [0, 0, 1.4]]), charge=0, spinpol=0, extra={"schema_name": "qcschema_molecule", "schema_version": 2, "molecule": {"provenance": [{"creator": "x"}], "unparsed": {"k": [1, 2]}}})
     out.append(("qcschema", q))
     return out
@@ -151,8 +159,10 @@ for name, d in objects():
                     try:
                         r = dump_one(d, fn, fmt=fmt, allow_changes=allow)
                         results.append(open(fn, "rb").read())
-                    except (PrepareDumpError, DumpError):
+                    except (PrepareDumpError, DumpError) as exc:
                         r = None
+                        if allow and isinstance(exc, PrepareDumpError) and any(issubclass(x.category, PrepareDumpWarning) for x in w):
+                            fails.append(((name, fmt, repr(exc.__cause__)[:120]), "a conversion was announced (PrepareDumpWarning) and then refused (PrepareDumpError)"))
                 nw = sum(issubclass(x.category, PrepareDumpWarning) for x in w)
                 if r is not None:
                     if not allow and r is not d: fails.append(((name, fmt), "without allow_changes a different object was returned"))
